@@ -125,6 +125,19 @@ class Sub(Base, *[], **{}):
         super().__init__(2)
         super(Sub, self).prop
         self.inner = Sub.Inner()
+class Annotated:
+    bare: int
+    valued: int = 1
+    if valued:
+        len = 1
+    try:
+        input = raw_input
+    except NameError:
+        pass
+    size = len
+    text = input
+Annotated().bare
+Annotated.size
 obj = Sub.make()
 obj.prop.real
 obj.inner.y
@@ -439,11 +452,48 @@ def every_position_broken(run):
     core.explore(lambda: None, lambda p, out: go(p))
 
 
+def long_lived(path):
+    """the server keeps ONE Project: the same requests again, one after the other inside check_changes(), on the project with import cycles"""
+    import logging
+    import supp.project as Pj
+    import supp.assistant as A
+    import supp.linter as L
+    logging.disable(logging.CRITICAL)
+    top = tempfile.mkdtemp(prefix='supp-c08-')
+    try:
+        for fn, body in PROJECT.items():
+            os.makedirs(os.path.dirname(os.path.join(top, fn)), exist_ok=True)
+            open(os.path.join(top, fn), 'w').write(body)
+        p = Pj.Project([top])
+        fname = os.path.join(top, 'main.py')
+        bad = None
+        lines = PROJECT_TEXT.split('\n')
+        for rnd in range(3):
+            for ln in range(1, len(lines) + 1):
+                pos = (ln, len(lines[ln - 1]))
+                for api in ('lint', 'assist', 'location'):
+                    try:
+                        with p.check_changes():
+                            if api == 'lint':
+                                L.lint(p, PROJECT_TEXT, fname)
+                            else:
+                                getattr(A, api)(p, PROJECT_TEXT, pos, fname)
+                    except SyntaxError:
+                        pass
+                    except BaseException as e:
+                        bad = bad or (rnd, api, pos, '%s: %s' % (type(e).__name__, str(e)[:80]))
+        prove('project:long-lived-project-keeps-answering', bad is None,
+              clause='three rounds of lint / assist / location on ONE Project with import cycles, each inside check_changes() [first failure: %r]' % (bad,), path=path)
+    finally:
+        shutil.rmtree(top, ignore_errors=True)
+
+
 @harness(['C08'], 'supp.linter.lint / supp.assistant.assist / location [every cursor position, project with import cycles]', bounded=BOUND)
 def every_position_project(run):
     """BOUNDED whole-API stand-in: a project whose modules import each other in cycles (from-import and star-import), and one that does not
     parse; also the same text without a file name"""
     def go(p):
         sweep(run, p, 'project', PROJECT_TEXT, files=PROJECT, filename='main.py')
+        long_lived(p)
         sweep(run, p, 'project-no-filename', 'from . import x\nfrom .m import y\nimport mc\nmc.q\n', files=PROJECT)
     core.explore(lambda: None, lambda p, out: go(p))
